@@ -354,6 +354,8 @@ Notes:
             ind = numpy.argsort(fsim)
             sim = numpy.take(sim,ind,0)
             fsim = numpy.take(fsim,ind,0)
+            # apply constraints, so the best is the point that was evaluated
+            sim[0] = asarray(constraints(sim[0]), dtype='float64')
         self.population = sim # bestSolution = sim[0]
         self.popEnergy = fsim # bestEnergy = fsim[0]
         self._stepmon(sim[0], fsim[0], self.id) # sim = all; "best" is sim[0]
